@@ -6,6 +6,7 @@ import (
 	"fmt"
 	"io"
 	"math/big"
+	"strings"
 
 	"github.com/tjfoc/gmsm/sm2"
 
@@ -375,6 +376,58 @@ func runC03(c *Ctx) {
 			cs = append(cs, oc{"random-pair", x, y})
 		}
 		cs = append(cs, oc{"(0,0)", new(big.Int), new(big.Int)}, oc{"(0,1)", new(big.Int), big.NewInt(1)}, oc{"(p-1,p-1)", pm1, pm1}, oc{"(1,0)", big.NewInt(1), new(big.Int)})
+		// genuine curve points at the top of the field: x (or y) in [n, p) — the band between the group order and the
+		// field prime, which no amount of sampling reaches (2^-129 of all x) — and x just below n; found by solving
+		// the curve equation downwards from the boundary values
+		solve := func(x *big.Int) *big.Int {
+			rhs := new(big.Int).Exp(x, big.NewInt(3), ref.P)
+			rhs.Add(rhs, new(big.Int).Mul(ref.A, x))
+			rhs.Add(rhs, ref.B)
+			rhs.Mod(rhs, ref.P)
+			return new(big.Int).ModSqrt(rhs, ref.P)
+		}
+		for _, st := range []struct {
+			cls  string
+			from *big.Int
+		}{{"on-curve/x-in-[n,p)/top", pm1}, {"on-curve/x-in-[n,p)/bottom", new(big.Int).Add(ref.N, big.NewInt(40))}, {"on-curve/x-just-below-n", new(big.Int).Sub(ref.N, big.NewInt(1))},
+			{"on-curve/x-mid-band", new(big.Int).Rsh(new(big.Int).Add(ref.N, ref.P), 1)}} {
+			found := 0
+			for x := new(big.Int).Set(st.from); found < 3 && x.Sign() > 0; x.Sub(x, big.NewInt(1)) {
+				if y := solve(x); y != nil {
+					cs = append(cs, oc{st.cls, new(big.Int).Set(x), y}, oc{st.cls + "/-y", new(big.Int).Set(x), new(big.Int).Sub(ref.P, y)})
+					found++
+				}
+			}
+		}
+		// the same points through the group operations (their coordinates exceed the group order, which a routine that
+		// confuses n with p would mishandle)
+		for _, o := range cs {
+			if !strings.HasPrefix(o.cls, "on-curve/x-") {
+				continue
+			}
+			pt := ref.FromXY(o.x, o.y)
+			w := map[string]interface{}{"x": o.x.Text(16), "y": o.y.Text(16), "class": o.cls}
+			var dx, dy, mx, my, ax, ay *big.Int
+			if pi := mon.Guard(func() {
+				dx, dy = curve.Double(o.x, o.y)
+				mx, my = curve.ScalarMult(o.x, o.y, []byte{3})
+				ax, ay = curve.Add(o.x, o.y, ref.Gx, ref.Gy)
+			}); pi != nil {
+				rep.Violation("C03/top-of-field-point/panic/"+pi.Func, pi.Value, w)
+				continue
+			}
+			for _, chk := range []struct {
+				op   string
+				x, y *big.Int
+				want ref.Point
+			}{{"Double", dx, dy, ref.Double(pt)}, {"ScalarMult(3)", mx, my, ref.Mul(big.NewInt(3), pt)}, {"Add(G)", ax, ay, ref.Add(pt, ref.G())}} {
+				wx, wy := chk.want.XY()
+				if chk.x.Cmp(wx) != 0 || chk.y.Cmp(wy) != 0 {
+					rep.Violation("C03/"+chk.op+"/wrong-point/top-of-field-point", fmt.Sprintf("got %s want %s", ptStr(chk.x, chk.y), ptStr(wx, wy)), w)
+				}
+			}
+			rep.Eval("ops/" + o.cls)
+		}
 		// x=0: y^2=b has a root? include (0, sqrt(b)) if it exists
 		if s := new(big.Int).ModSqrt(ref.B, ref.P); s != nil {
 			cs = append(cs, oc{"(0,sqrt b)", new(big.Int), s})
